@@ -8,11 +8,21 @@ using namespace asmjit;
 
 template<class T> union Raw { T v; Raw() noexcept {} ~Raw() noexcept {} };
 
-static const unsigned G = 2, P = 8, W = 6, NONE = RAAssignment::kPhysNone;
+// sizes: default 2 groups x 8 physical registers, 6 work registers; with -DC05_X64 the x86-64 register file (16 GP, 32 vector,
+// 8 mask, 8 MM registers) and 8 work registers
+#ifdef C05_X64
+static const unsigned G = 4, W = 8, TOTAL = 64, GMASK = 3, PMASK = 31;
+static const unsigned PC[4] = { 16, 32, 8, 8 }, BASE[4] = { 0, 16, 48, 56 };
+#else
+static const unsigned G = 2, W = 6, TOTAL = 16, GMASK = 1, PMASK = 7;
+static const unsigned PC[4] = { 8, 8, 0, 0 }, BASE[4] = { 0, 8, 16, 16 };
+#endif
+static const unsigned P = 8;   // group size of the default layout (h_decide.cpp)
+static const unsigned NONE = RAAssignment::kPhysNone;
 // the two maps as the pass lays them out (PhysToWorkMap::size_of(16) = 96 bytes, WorkToPhysMap::size_of(6) = 8 bytes)
-struct PMap { RARegMask assigned; RARegMask dirty; RAWorkId work_ids[G * P]; };
+struct PMap { RARegMask assigned; RARegMask dirty; RAWorkId work_ids[TOTAL]; };
 struct WMap { uint8_t phys_ids[8]; };
-static_assert(sizeof(PMap) == 96 && offsetof(PMap, work_ids) == offsetof(RAAssignment::PhysToWorkMap, work_ids), "layout");
+static_assert(sizeof(PMap) == 32 + 4 * TOTAL && offsetof(PMap, work_ids) == offsetof(RAAssignment::PhysToWorkMap, work_ids), "layout");
 
 struct Model { uint8_t loc[W]; bool dirty[W]; uint8_t grp[W]; };
 
@@ -27,9 +37,9 @@ struct Env {
 
 static inline void model_nondet(Model& m) {
   for (unsigned w = 0; w < W; w++) {
-    m.grp[w] = nondet_u8() & 1;
-    uint8_t l = nondet_u8() & 15;
-    m.loc[w] = l < P ? l : NONE;
+    m.grp[w] = nondet_u8() & GMASK;
+    uint8_t l = nondet_u8() & (2 * PMASK + 1);
+    m.loc[w] = l < PC[m.grp[w]] ? l : NONE;
     m.dirty[w] = m.loc[w] != NONE && nondet_bool();
   }
   for (unsigned a = 0; a < W; a++) for (unsigned b = a + 1; b < W; b++)
@@ -39,15 +49,14 @@ static inline void model_nondet(Model& m) {
 // the maps a model stands for
 static inline void maps_of(const Model& m, PMap& pm, WMap& wm) {
   for (unsigned g = 0; g < 4; g++) { pm.assigned._masks[g] = 0; pm.dirty._masks[g] = 0; }
-  for (unsigned g = 0; g < G; g++) for (unsigned p = 0; p < P; p++) {
+  for (unsigned g = 0; g < G; g++) for (unsigned p = 0; p < PC[g]; p++) {
     RAWorkId id = kBadWorkId; bool d = false;
     for (unsigned w = 0; w < W; w++) if (m.grp[w] == g && m.loc[w] == p) { id = RAWorkId(w); d = m.dirty[w]; }
-    pm.work_ids[g * P + p] = id;
+    pm.work_ids[BASE[g] + p] = id;
     if (id != kBadWorkId) pm.assigned._masks[g] |= 1u << p;
     if (d) pm.dirty._masks[g] |= 1u << p;
   }
-  for (unsigned w = 0; w < W; w++) wm.phys_ids[w] = m.loc[w];
-  wm.phys_ids[6] = wm.phys_ids[7] = 0xFF;
+  for (unsigned w = 0; w < 8; w++) wm.phys_ids[w] = w < W ? m.loc[w] : 0xFF;
 }
 
 static inline void env_init(const Env& e, const Model& m) {
@@ -58,7 +67,7 @@ static inline void env_init(const Env& e, const Model& m) {
     g_reg_ptrs[w] = &r;
   }
   g_work_regs._data = g_reg_ptrs; g_work_regs._size = W; g_work_regs._capacity = W;
-  RARegCount pc; pc.reset(); pc.set(RegGroup(0), P); pc.set(RegGroup(1), P);
+  RARegCount pc; pc.reset(); for (unsigned g = 0; g < G; g++) pc.set(RegGroup(g), PC[g]);
   e.as.init_layout(pc, g_work_regs);
   maps_of(m, e.pm, e.wm);
   e.as.init_maps(reinterpret_cast<RAAssignment::PhysToWorkMap*>(&e.pm), reinterpret_cast<RAAssignment::WorkToPhysMap*>(&e.wm));
